@@ -8,8 +8,9 @@
      caskethttp/httpserver/recorder.go   ResponseRecorder.WriteHeader / Write
      caskethttp/log/setup.go             logParse + appendEntry (one rule per distinct scope string,
                                          one exception list per log directive)
-     caskethttp/log/log.go               Logger.ServeHTTP (first matching rule, fallback error
-                                         response written through the recorder, one line per entry)
+     caskethttp/log/log.go               Logger.ServeHTTP (served when some rule matches, fallback error
+                                         response written through the recorder, one line per entry
+                                         of every matching rule)
      caskethttp/errors/errors.go         ErrorHandler.ServeHTTP / recovery (as a script transformer)
      caskethttp/httpserver/server.go     Server.ServeHTTP's fallback error response and recover
    The scanning primitives (find_unescaped, unescape_braces, trim_prefix_bsl) are those of
@@ -367,12 +368,16 @@ Definition line := (nat * Z * N)%type.    (* (log directive / entry id, {status}
 (* getSubstitution's {size}: the recorder's byte count, 0 when the request's method is HEAD *)
 Definition logged_size (c : wcfg) (r : rec) : N := if w_head c then 0 else r_size r.
 
+(* Logger.entries: the entries of every rule whose scope contains the path, in rule order *)
+Definition matching_entries (cs : bool) (rules : list rule) (path : bytes) : list entry :=
+  flat_map ru_entries (filter (fun r => path_matches cs path (ru_scope r)) rules).
+
 (* log.Logger.ServeHTTP: result = writer state, returned status, panicked, lines written *)
 Definition log_serve (c : wcfg) (cs : bool) (tbl : list (Z * N)) (ek : N) (rules : list rule)
            (path : bytes) (ops : list wop) (ret : Z) (u : uw) : uw * Z * bool * list line :=
   match find (fun r => path_matches cs path (ru_scope r)) rules with
   | None => let '((u', _), p) := run c (u, rec0) ops in (u', ret, p, [])
-  | Some r =>
+  | Some _ =>
     let '((u1, r1), p) := run c (u, rec0) ops in
     if p then (u1, ret, true, [])
     else
@@ -381,7 +386,7 @@ Definition log_serve (c : wcfg) (cs : bool) (tbl : list (Z * N)) (ek : N) (rules
         else ((u1, r1), ret) in
       (u2, ret', false,
        map (fun e => (n_id e, r_status r2, logged_size c r2))
-           (filter (fun e => should_log cs (n_except e) path) (ru_entries r)))
+           (filter (fun e => should_log cs (n_except e) path) (matching_entries cs rules path)))
   end.
 
 (* errors.ErrorHandler sits inside log and writes to the same writer: as a script transformer *)
@@ -432,8 +437,6 @@ Definition final_codes (ops : list wop) : bool :=
 (* what the log middleware adds itself when the handler returned [ret] *)
 Definition fallback (tbl : list (Z * N)) (ek : N) (ret : Z) : list wop :=
   if (400 <=? ret)%Z then err_ops tbl ek ret else [].
-(* all log directives of the site have the same scope *)
-Definition uniform_scope (sc : bytes) (ds : list directive) : Prop := forall d, In d ds -> d_scope d = sc.
 Definition ids_of (ls : list line) : list nat := map (fun l => fst (fst l)) ls.
 
 (* ---- executable statement of the property on observations --------------------------------- *)
